@@ -3,6 +3,8 @@ import json, os, shutil, subprocess, sys, time, glob, resource, hashlib, re
 
 VERIF = os.path.dirname(os.path.dirname(os.path.abspath(__file__)))
 REPO = os.environ.get("VERIF_REPO", "/repo")
+# evidence of runs against a scratch worktree (mutation testing) never replaces the evidence for /repo itself
+EVDIR = os.path.join(VERIF, "evidence") if os.path.realpath(REPO) == "/repo" else os.path.join(VERIF, ".scratch", "evidence-alt")
 MOD = "github.com/tinode/chat"
 GOENV = {"GOFLAGS": "-mod=mod", "GOPROXY": "off", "GOSUMDB": "off", "GOTOOLCHAIN": "local",
          "CGO_ENABLED": "0"}
@@ -292,8 +294,8 @@ def merge(chk, tier, seed, jobs, outdir, wall, failures):
                 cov.pop(k, None)
     if not getattr(chk, "claimed", True) and chk.id == "SELF":
         return lines, len(seen_keys)
-    os.makedirs(os.path.join(VERIF, "evidence"), exist_ok=True)
-    json.dump(ev, open(os.path.join(VERIF, "evidence", chk.id + ".json"), "w"), indent=1, sort_keys=False)
+    os.makedirs(EVDIR, exist_ok=True)
+    json.dump(ev, open(os.path.join(EVDIR, chk.id + ".json"), "w"), indent=1, sort_keys=False)
     return lines, len(seen_keys)
 
 
@@ -357,7 +359,7 @@ def main(argv):
         if chk.id == "SELF":
             log("[SELF] failures=%d" % len(failures))
             return rc
-        ev = json.load(open(os.path.join(VERIF, "evidence", chk.id + ".json")))
+        ev = json.load(open(os.path.join(EVDIR, chk.id + ".json")))
         c = ev["coverage"]
         log("[%s %s] evaluations=%d distinct=%d states=%s transitions=%s exhaustive=%s violations=%d wall=%.1fs" % (
             chk.id, tier, c["evaluations"], c["distinct_nontrivial"], c.get("states"), c.get("transitions"),
